@@ -68,3 +68,16 @@ def mangled_param_is_const(name, idx, cf):
         return False
     p = params[j]
     return bool(re.search(r'const\s*[&*]$', p)) or bool(re.search(r'const\s*\*\s*const$', p))
+
+
+def strip_targs(q):
+    """randomx::VmBase<randomx::AlignedAllocator<64>, true>::run -> randomx::VmBase::run"""
+    out, depth = '', 0
+    for ch in q:
+        if ch == '<':
+            depth += 1
+        elif ch == '>':
+            depth -= 1
+        elif depth == 0:
+            out += ch
+    return out
